@@ -144,6 +144,10 @@ GEN_SUBS = [  # (name, return type, parameters, body): parameters forwarded to m
     ("vt_cast_arg", "uint64_t", ["uint32_t v"], "{ return clz64(v) + v; }"),
     ("vt_local", "int32_t", ["int32_t a"], "{ int32_t t = a; t = t + a; return t + extract32(a, 0, 8); }"),
     ("vt_branch", "int32_t", ["int32_t a", "int32_t b"], "{ int32_t r = b; if (a > b) { r = a; } return r + a; }"),
+    # parameter names that merely CONTAIN `hi` / `pkt`; bodies that need the `hi` / `pkt` declarations
+    ("vt_shift", "int32_t", ["HexInsnPktBundle *bundle", "const HexOp *RdV", "const HexOp *RsV", "int32_t shift"], "{ RdV = RsV >> shift; return shift; }"),
+    ("vt_count", "int32_t", ["HexInsnPktBundle *bundle", "const HexOp *RsV", "uint32_t pkt_count"], "{ return RsV + pkt_count; }"),
+    ("vt_high", "int32_t", ["HexInsnPktBundle *bundle", "int32_t high"], "{ return siV + high; }"),
     ("vt_ext", "int32_t", ["HexInsnPktBundle *bundle", "int32_t v"], "{ set_usr_field(bundle, HEX_REG_FIELD_USR_OVF, v); return get_usr_field(bundle, HEX_REG_FIELD_USR_OVF) + v; }"),
 ]
 
@@ -159,6 +163,8 @@ def subroutines(ctx, prop, want):
         try:
             b = iltext.parse_body(s_["body"], params)
             cases.append((("bundled", s_["name"]), b))
+            if "wf" in want and b.undeclared_context():
+                fails.append(("sub", "bundled sub-routine " + s_["name"], ["wf (sub-routine body mentions " + "/".join(b.undeclared_context()) + " without declaring it)"], {"flags": 0}))
             if b.invalid_names and "wf" in want:
                 fails.append(("sub", s_["name"], ["malformed-text: invalid C identifiers " + ", ".join(b.invalid_names)], {"flags": 0}))
         except iltext.ILParseError as e:
@@ -173,6 +179,8 @@ def subroutines(ctx, prop, want):
             try:
                 b = iltext.parse_body(st["text"], params)
                 cases.append(((h["id"], f"{r} {n}({', '.join(ps)}) {code}"), b))
+                if "wf" in want and b.undeclared_context():
+                    fails.append((f"sub:{h['id']}", f"{r} {n}({', '.join(ps)}) {code}", ["wf (sub-routine body mentions " + "/".join(b.undeclared_context()) + " without declaring it)"], {"flags": 0}))
             except iltext.ILParseError as e:
                 if "wf" in want:
                     fails.append(("sub", f"{n} {code}", ["malformed-text: " + str(e)], {"flags": 0}))
